@@ -94,7 +94,7 @@ def domination_monitor(ctx):
                              "floor": ABS_FLOOR, "configs": [s["ini"] for s in ss]})
     outs = C.run_driver_parallel(ctx, "c04_thinning", jobs, timeout=1700)
     res = {"neval": 0, "npos": 0, "violations": [], "max_ratio": 0.0, "max_at": None, "hist": [0] * 22,
-           "residues": 0, "max_residue": 0.0, "combos": [], "jobs": len(jobs)}
+           "residues": 0, "max_residue": 0.0, "combos": [], "jobs": len(jobs), "max_clean": 0.0, "max_clean_at": None}
     per_combo = {}
     for job, o in zip(jobs, outs):
         o = o["out"]
@@ -116,6 +116,8 @@ def domination_monitor(ctx):
                 res["violations"].append(where)
             elif t > ABS_FLOOR / (L * L) and b > 0:
                 ratio = t / b
+                if score == "clean" and ratio > res["max_clean"]:
+                    res["max_clean"], res["max_clean_at"] = ratio, where
                 if ratio > res["max_ratio"]:
                     res["max_ratio"], res["max_at"] = ratio, where
                 if ratio > per_combo.get(k, (0, None))[0]:
@@ -229,7 +231,7 @@ def leaf_units(flat):
 def oracle(cfg, case, res):
     """The property on the implementation's behaviour for one handler run.  Returns (message or None, summary)."""
     if "exc" in res:
-        return "handler raised " + res["exc"], None
+        return "handler raised " + " | ".join(x.strip() for x in res["exc"].splitlines() if x.strip())[-300:], None
     fam = cfg["family"]
     composite = fam in ("summed", "cell_comp", "veto_comp")
     if res.get("skipped"):
@@ -240,13 +242,21 @@ def oracle(cfg, case, res):
     lin, lout = leaf_units(sliced), leaf_units(out)
     vin = [u["vel"] for u in lin]
     vout = [u["vel"] for u in lout]
-    moved = vin != vout
     L = b2f(cfg["L"])
     active = [u for u in lin if u["vel"] is not None]
     if len(active) != 1:
         return "in-state has %d active leaf units" % len(active), None
     active = active[0]
     avel = active["vel"]
+    newact = [u for u in lout if u["vel"] is not None]
+    if vin == vout:
+        moved = False
+    elif len(newact) == 1 and newact[0]["vel"] == avel and newact[0]["id"] != active["id"] and \
+            [u["id"] for u in lin] == [u["id"] for u in lout]:
+        moved = True
+    else:
+        return "leaf-unit velocities changed from %r to %r: neither unchanged (unconfirmed event) nor a hand-over " \
+               "of the active velocity to one other leaf unit (confirmed event)" % (vin, vout), None
     # --- true rate the handler must have used: derivative of the potential at the event position
     if not pot_calls:
         return "the potential was not evaluated", None
@@ -520,6 +530,9 @@ def run(ctx, replay_data=None):
             "largest_ratio_true_over_bound": dom["max_ratio"],
             "largest_ratio_at": None if dom["max_at"] is None else {
                 k: dom["max_at"][k] for k in ("L", "separation", "direction", "charges", "kb", "km")},
+            "largest_ratio_with_component_along_motion_above_1e-9_L (free of rounding noise)": dom["max_clean"],
+            "largest_clean_ratio_at": None if dom["max_clean_at"] is None else {
+                k: dom["max_clean_at"][k] for k in ("L", "separation", "direction", "charges", "kb", "km")},
             "per_prefactor_and_box": dom["combos"],
             "ratio_histogram_step_0.05": dom["hist"],
             "sign_residues_below_noise_floor": dom["residues"],
